@@ -2,6 +2,8 @@ package props
 
 import (
 	"fmt"
+	"go/token"
+	"regexp"
 	"strings"
 
 	"golang.org/x/tools/go/ssa"
@@ -55,7 +57,9 @@ func runC04(c *eng.Ctx, thorough bool) {
 			}
 		}
 		cubby := instrsOf(eng.Calls(f, `^dyn:ts\.cubbyholeDestroyer$`))
-		rbt := instrsOf(eng.Calls(f, `vault\.\(\*ExpirationManager\)\.RevokeByToken$`))
+		// direct, or through a bound method value (props/c04follow.go)
+		rbtCalls := nfCalls(f, `vault\.\(\*ExpirationManager\)\.RevokeByToken$`)
+		rbt := nfIns(rbtCalls)
 		var idxDel []ssa.Instruction
 		for _, d := range eng.Calls(f, `<barrier\.View>\.Delete$`) {
 			idxDel = append(idxDel, d)
@@ -200,8 +204,8 @@ func runC04(c *eng.Ctx, thorough bool) {
 		}
 		// the token whose leases are revoked / cubbyhole destroyed is the looked-up entry
 		c.Clause("R5", "C04.2")
-		for _, r := range rbt {
-			c.Prov(f, "entry given to RevokeByToken", r, r.(ssa.CallInstruction).Common().Args[2], `^call:vault\.\(\*TokenStore\)\.lookupInternal#0$`)
+		for _, r := range rbtCalls {
+			c.Prov(f, "entry given to RevokeByToken", r.In, r.Args[2], `^call:vault\.\(\*TokenStore\)\.lookupInternal#0$`)
 		}
 		for _, r := range cubby {
 			c.Prov(f, "entry given to cubbyholeDestroyer", r, r.(ssa.CallInstruction).Common().Args[2], `^call:vault\.\(\*TokenStore\)\.lookupInternal#0$`)
@@ -218,46 +222,52 @@ func runC04(c *eng.Ctx, thorough bool) {
 		}
 
 		// ---- C04.3 pending-deletion bookkeeping
-		c.Clause("R5", "C04.3")
-		mapOps := eng.Calls(f, `^sync\.\(\*Map\)\.(LoadOrStore|Store|Delete|Load)$`)
-		if clo != nil {
-			mapOps = append(mapOps, eng.Calls(clo, `^sync\.\(\*Map\)\.(LoadOrStore|Store|Delete|Load)$`)...)
+		// The operations are selected by what they are: sync.Map methods on the value of the field
+		// TokenStore.tokensPendingDeletion — read in place, through a local alias or a captured variable —
+		// performed directly or by a closure / helper that performs them on every path (props/c04follow.go).
+		pendF := c.P.Field("vault.TokenStore.tokensPendingDeletion")
+		if pendF == nil {
+			c.Unresolved("vault.TokenStore.tokensPendingDeletion")
 		}
-		n := 0
-		for _, op := range mapOps {
-			a := op.Common().Args
-			if !strings.Contains(eng.Expr(a[0]), "tokensPendingDeletion") {
-				continue
+		saltedIdx := nfParamIndex(f, "saltedID")
+		pendingOp := func(ops string) func(nfCall, *nfFrame) bool {
+			re := regexp.MustCompile(`^sync\.\(\*Map\)\.(` + ops + `)$`)
+			return func(nc nfCall, fr *nfFrame) bool {
+				return re.MatchString(nc.Name) && len(nc.Args) >= 2 && nfIsField(nc.Args[0], fr, pendF)
 			}
-			n++
-			c.Prov(op.Parent(), "key of tokensPendingDeletion."+strings.TrimPrefix(eng.CalleeName(op.Common()), "sync.(*Map)."), op, a[1], `^param:saltedID$`, `^freevar:saltedID$`)
 		}
-		c.Floor(f, "tokensPendingDeletion operations", n, 4)
+		isReset := func(nc nfCall, fr *nfFrame) bool {
+			return pendingOp("Store")(nc, fr) && len(nc.Args) >= 3 && nfIsConst(nc.Args[2], fr, "false")
+		}
+		var cloFr *nfFrame
+		if len(deferIn) > 0 {
+			cloFr = &nfFrame{call: deferIn[0].(ssa.CallInstruction)}
+		}
+		c.Clause("R5", "C04.3")
+		anyOp := pendingOp("LoadOrStore|Store|Delete|Load")
+		opSites := nfMust(f, nil, anyOp, 2)
+		if clo != nil {
+			opSites = append(opSites, nfMust(clo, cloFr, anyOp, 2)...)
+		}
+		for _, e := range nfEffs(opSites) {
+			site := "prov{key of tokensPendingDeletion." + strings.TrimPrefix(e.Call.Name, "sync.(*Map).") + "}"
+			if ok, bad := nfIsParamOf(e.Call.Args[1], e.Fr, f, saltedIdx); ok {
+				c.OK(e.Fn, site, e.Call.In.Pos(), "the key is revokeInternal's saltedID parameter")
+			} else {
+				c.Violation(e.Fn, site, e.Call.In.Pos(), "the pending-deletion state is keyed by "+eng.Expr(e.Call.Args[1])+" ("+bad+"), not by the salted id revokeInternal was called with: the short-circuit and the resets no longer meet on one key", nil)
+			}
+		}
+		c.Floor(f, "tokensPendingDeletion operations", len(opSites), 4)
 		c.Clause("R4", "C04.3")
-		los := eng.Calls(f, `^sync\.\(\*Map\)\.LoadOrStore$`)
+		los := nfAts(nfMust(f, nil, pendingOp("LoadOrStore"), 0))
 		if c.Floor(f, "LoadOrStore", len(los), 1) {
 			// error returns after LoadOrStore must pass a reset: Store(saltedID,false) in the body, or the arming of the deferred closure that resets
-			var resets []ssa.Instruction
-			for _, op := range eng.Calls(f, `^sync\.\(\*Map\)\.Store$`) {
-				a := op.Common().Args
-				if strings.Contains(eng.Expr(a[0]), "tokensPendingDeletion") && eng.Expr(a[2]) == "false" {
-					resets = append(resets, op)
-				}
-			}
+			resets := nfAts(nfMust(f, nil, isReset, 2))
 			cloResets := false
+			var dl []ssa.Instruction
 			if clo != nil {
-				var st, dl []ssa.Instruction
-				for _, op := range eng.Calls(clo, `^sync\.\(\*Map\)\.Store$`) {
-					a := op.Common().Args
-					if strings.Contains(eng.Expr(a[0]), "tokensPendingDeletion") && eng.Expr(a[2]) == "false" {
-						st = append(st, op)
-					}
-				}
-				for _, op := range eng.Calls(clo, `^sync\.\(\*Map\)\.Delete$`) {
-					if strings.Contains(eng.Expr(op.Common().Args[0]), "tokensPendingDeletion") {
-						dl = append(dl, op)
-					}
-				}
+				st := nfAts(nfMust(clo, cloFr, isReset, 2))
+				dl = nfAts(nfMust(clo, cloFr, pendingOp("Delete"), 2))
 				isRet := func(in ssa.Instruction) bool { _, ok := in.(*ssa.Return); return ok }
 				// every exit of the closure updates the state, and the "clear" side is only taken when ret == nil
 				allUpdate := len(st) > 0 && eng.Reach(eng.Query{Fn: clo, Barriers: append(append([]ssa.Instruction{}, st...), dl...), Target: isRet}) == nil
@@ -293,16 +303,10 @@ func runC04(c *eng.Ctx, thorough bool) {
 			}
 			// success in the closure deletes the state
 			if clo != nil {
-				var dels []ssa.Instruction
-				for _, op := range eng.Calls(clo, `^sync\.\(\*Map\)\.Delete$`) {
-					if strings.Contains(eng.Expr(op.Common().Args[0]), "tokensPendingDeletion") {
-						dels = append(dels, op)
-					}
-				}
-				if len(dels) == 0 {
+				if len(dl) == 0 {
 					c.Violation(clo, "success clears the state", clo.Pos(), "the deferred closure no longer deletes the pending-deletion state on success", nil)
 				} else {
-					c.OK(clo, "success clears the state", dels[0].Pos(), "tokensPendingDeletion.Delete(saltedID) present on the success side")
+					c.OK(clo, "success clears the state", dl[0].Pos(), "tokensPendingDeletion.Delete(saltedID) present on the success side")
 				}
 			}
 		}
@@ -439,11 +443,43 @@ func runC04(c *eng.Ctx, thorough bool) {
 	// wrong namespace, "not found", unlinked and left usable (seed C04-b)
 	if f := c.Fn("vault.(*TokenStore).revokeTreeInternal"); f != nil {
 		c.Clause("R5", "C04.7")
-		var sites []ssa.CallInstruction
-		sites = append(sites, eng.Calls(f, `vault\.\(\*TokenStore\)\.revokeInternal$`)...)
-		sites = append(sites, eng.Calls(f, `^<barrier\.View>\.(List|Delete)$`)...)
+		type nsSite struct {
+			fn *ssa.Function
+			cl ssa.CallInstruction
+			fr *nfFrame
+		}
+		var sites []nsSite
+		nsOps := func(g *ssa.Function, fr *nfFrame) {
+			for _, cl := range eng.Calls(g, `vault\.\(\*TokenStore\)\.revokeInternal$`) {
+				sites = append(sites, nsSite{g, cl, fr})
+			}
+			for _, cl := range eng.Calls(g, `^<barrier\.View>\.(List|Delete)$`) {
+				sites = append(sites, nsSite{g, cl, fr})
+			}
+		}
+		nsOps(f, nil)
+		// a part of the walk moved into a helper of this package that is handed the node's context:
+		// its operations are operations of the walk, its context parameter is the argument passed
+		for _, ci := range nfAllCalls(f) {
+			g := nfBody(ci, f)
+			if _, plain := ci.(*ssa.Call); !plain || g == nil || g == f || g == c.P.Func("vault.(*TokenStore).revokeInternal") {
+				continue // revokeInternal is a site of the walk itself
+			}
+			handed := false
+			for _, a := range ci.Common().Args {
+				for _, o := range eng.Origins(a) {
+					if o.Kind == "call" && strings.HasSuffix(o.Desc, "namespace.ContextWithNamespace") {
+						handed = true
+					}
+				}
+			}
+			if handed {
+				nsOps(g, &nfFrame{call: ci})
+			}
+		}
 		n := 0
-		for _, cl := range sites {
+		for _, s := range sites {
+			cl := s.cl
 			cc := cl.Common()
 			ctxArg := cc.Args[0]
 			if !cc.IsInvoke() {
@@ -451,7 +487,7 @@ func runC04(c *eng.Ctx, thorough bool) {
 			}
 			n++
 			adjusted, other := false, ""
-			for _, o := range eng.Origins(ctxArg) {
+			for _, o := range nfOrigins(ctxArg, s.fr) {
 				switch {
 				case o.Kind == "call" && strings.HasSuffix(o.Desc, "namespace.ContextWithNamespace"):
 					adjusted = true
@@ -468,9 +504,9 @@ func runC04(c *eng.Ctx, thorough bool) {
 			}
 			site := "context of " + eng.CalleeName(cc) + " = the node's own namespace"
 			if adjusted && other == "" {
-				c.OK(f, site, cl.Pos(), eng.Expr(ctxArg))
+				c.OK(s.fn, site, cl.Pos(), eng.Expr(ctxArg))
 			} else {
-				c.Violation(f, site, cl.Pos(), "the tree walk hands "+eng.Expr(ctxArg)+" to "+eng.CalleeName(cc)+" ("+other+"): a descendant that lives in another namespace is looked up in the wrong one", nil)
+				c.Violation(s.fn, site, cl.Pos(), "the tree walk hands "+eng.Expr(ctxArg)+" to "+eng.CalleeName(cc)+" ("+other+"): a descendant that lives in another namespace is looked up in the wrong one", nil)
 			}
 		}
 		c.Floor(f, "namespace-sensitive operations of the tree walk", n, 3)
@@ -492,7 +528,13 @@ func runC04(c *eng.Ctx, thorough bool) {
 		rev := instrsOf(eng.Calls(f, `vault\.\(\*TokenStore\)\.revokeInternal$`))
 		if c.Floor(f, "parentView.List", len(list), 1) && c.Floor(f, "revokeInternal", len(rev), 1) {
 			c.Cut(f, "revokeInternal(node)", rev, eng.GCallOK(f, `<barrier\.View>\.List$`), nil)
-			c.Cut(f, "revokeInternal(node)", rev, eng.G(f, `^\(?len\(φchildren.*\)\)? == 0$`, true), nil)
+			// leaves only: the emptiness test is selected by what it tests — the slice that is pushed
+			// onto the stack the node was read from — not by the name or shape of that slice
+			if lg, why := c04LeafGuard(f, rev); why != "" {
+				c.Undecided(f, "sink{revokeInternal(node)} guard{"+lg.Desc+"}", rev[0].Pos(), why+" (moved? the rule cannot be evaluated)")
+			} else {
+				c.Cut(f, "revokeInternal(node)", rev, lg, nil)
+			}
 			c.Clause("R12", "C04.7")
 			for _, r := range rev {
 				a := r.(ssa.CallInstruction).Common().Args
@@ -602,11 +644,97 @@ func runC04(c *eng.Ctx, thorough bool) {
 // okEdgesOf: success edges of all calls in f matching pat.
 func okEdgesOf(f *ssa.Function, pat string) []eng.Edge {
 	var out []eng.Edge
-	for _, cl := range eng.Calls(f, pat) {
-		if _, isDefer := cl.(*ssa.Defer); isDefer {
+	for _, nc := range nfCalls(f, pat) {
+		if _, isDefer := nc.In.(*ssa.Defer); isDefer {
 			continue
 		}
-		out = append(out, eng.CallOKEdges(cl)...)
+		out = append(out, eng.CallOKEdges(nc.In)...)
 	}
 	return out
+}
+
+// c04LeafGuard: the edges on which the tree walk knows that the node has no
+// (unvisited) child. The walk reads the node off a stack (a slice indexed for
+// the id handed to revokeInternal) and pushes the node's children onto it
+// (append(stack, children...)); a leaf is a node for which nothing is pushed:
+// the guard is a comparison of len(children) with a constant that holds for 0
+// and for no larger length, children being the very value that is pushed.
+func c04LeafGuard(f *ssa.Function, rev []ssa.Instruction) (eng.Guard, string) {
+	g := eng.Guard{Desc: "len(children pushed onto the walk's stack) == 0"}
+	// the stack: what the node id is indexed out of
+	var stacks []ssa.Value
+	for _, r := range rev {
+		a := r.(ssa.CallInstruction).Common().Args
+		if len(a) < 3 {
+			continue
+		}
+		var fromIdx func(v ssa.Value, depth int)
+		fromIdx = func(v ssa.Value, depth int) {
+			if depth > 4 {
+				return
+			}
+			for _, o := range eng.Origins(v) {
+				switch x := o.Val.(type) {
+				case *ssa.Extract:
+					if call, ok := x.Tuple.(*ssa.Call); ok && x.Index == 0 && strings.HasSuffix(o.Desc, "namespace.SplitIDFromString#0") && len(call.Call.Args) == 1 {
+						fromIdx(call.Call.Args[0], depth+1)
+					}
+				case *ssa.UnOp:
+					if ia, ok := x.X.(*ssa.IndexAddr); ok && x.Op == token.MUL {
+						stacks = append(stacks, ia.X)
+					}
+				}
+			}
+		}
+		fromIdx(a[2], 0)
+	}
+	if len(stacks) == 0 {
+		return g, "the node handed to revokeInternal is not read off a stack slice"
+	}
+	// what is pushed: the spread operand of the appends that flow into the stack
+	pushed := map[ssa.Value]bool{}
+	seen := map[ssa.Value]bool{}
+	var flow func(v ssa.Value)
+	flow = func(v ssa.Value) {
+		if v == nil || seen[v] {
+			return
+		}
+		seen[v] = true
+		switch x := v.(type) {
+		case *ssa.Phi:
+			for _, e := range x.Edges {
+				flow(e)
+			}
+		case *ssa.Slice:
+			flow(x.X)
+		case *ssa.Call:
+			if b, ok := x.Call.Value.(*ssa.Builtin); ok && b.Name() == "append" && len(x.Call.Args) == 2 {
+				pushed[x.Call.Args[1]] = true
+				flow(x.Call.Args[0])
+			}
+		}
+	}
+	for _, s := range stacks {
+		flow(s)
+	}
+	if len(pushed) == 0 {
+		return g, "nothing is appended to the stack the node is read from"
+	}
+	isLenPushed := func(v ssa.Value) bool {
+		call, ok := v.(*ssa.Call)
+		if !ok {
+			return false
+		}
+		b, ok := call.Call.Value.(*ssa.Builtin)
+		return ok && b.Name() == "len" && len(call.Call.Args) == 1 && pushed[call.Call.Args[0]]
+	}
+	for _, in := range eng.Instrs(f, func(in ssa.Instruction) bool { _, ok := in.(*ssa.BinOp); return ok }) {
+		b := in.(*ssa.BinOp)
+		at, k, ok := nfCmpConst(b, isLenPushed)
+		if !ok || !nfSeparates(at, k, 0) {
+			continue
+		}
+		g.Edges = append(g.Edges, eng.BoolEdges(b, at(0))...)
+	}
+	return g, ""
 }
